@@ -245,11 +245,14 @@ MAP_B = [
     ("par_iter", "{ use rayon::iter::IntoParallelRefIterator; c.par_iter() }"),
     ("par_iter_mut", "{ use rayon::iter::IntoParallelRefMutIterator; c.par_iter_mut() }"),
     ("par_keys", "c.par_keys()"), ("par_values", "c.par_values()"), ("par_values_mut", "c.par_values_mut()"), ("par_drain", "c.par_drain()"),
+    ("insert_unique_unchecked", "unsafe { c.insert_unique_unchecked(77, String::new()) }"),
+    ("hasher", "c.hasher()"), ("allocator", "c.allocator()"),
 ]
 SET_B = [
     ("get", "c.get(&1)"), ("get_or_insert", "c.get_or_insert(1)"), ("get_or_insert_with", "c.get_or_insert_with(&1, |x| *x)"),
     ("iter", "c.iter()"), ("drain", "c.drain()"), ("extract_if", "c.extract_if(|_| true)"), ("entry", "c.entry(1)"),
     ("iter_item", "c.iter().next()"), ("par_iter", "{ use rayon::iter::IntoParallelRefIterator; c.par_iter() }"), ("par_drain", "c.par_drain()"),
+    ("insert_unique_unchecked", "unsafe { c.insert_unique_unchecked(77) }"), ("hasher", "c.hasher()"), ("allocator", "c.allocator()"),
 ]
 SET2_B = [("union", "c.union(&d)"), ("intersection", "c.intersection(&d)"), ("difference", "c.difference(&d)"),
           ("symmetric_difference", "c.symmetric_difference(&d)"), ("par_union", "c.par_union(&d)"), ("par_difference", "c.par_difference(&d)")]
@@ -263,6 +266,7 @@ TABLE_B = [
     ("vacant_insert", "match c.entry(1, |x| *x == 1, h) { hashbrown::hash_table::Entry::Vacant(v) => Some(v.insert(1)), _ => None }"),
     ("iter_item", "c.iter().next()"), ("iter_mut_item", "c.iter_mut().next()"),
     ("par_iter", "{ use rayon::iter::IntoParallelRefIterator; c.par_iter() }"), ("par_drain", "c.par_drain()"),
+    ("allocator", "c.allocator()"),
 ]
 KILLS = {"mutate": "c.clear();", "drop": "drop(c);", "move": "let moved = c;"}
 
